@@ -31,8 +31,31 @@ class Fail(Exception):
 
 
 def check(cond, *what):
+    """`what` items are formatted with repr only when the check fails (formatting a symbolic string forks paths)."""
     if not cond:
-        raise Fail(' '.join(str(w) for w in what))
+        raise Fail(' '.join(w if isinstance(w, str) and not _is_symbolic(w) else _safe_repr(w) for w in what))
+
+
+def _is_symbolic(w):
+    return type(w).__module__.startswith('crosshair') if not NATIVE else False
+
+
+def _safe_repr(w):
+    try:
+        return repr(w)
+    except Exception:
+        return '<unprintable>'
+
+
+class R:
+    """Marks a value to be shown with repr in a failure message (evaluated lazily)."""
+    __slots__ = ('v',)
+
+    def __init__(self, v):
+        self.v = v
+
+    def __repr__(self):
+        return repr(self.v)
 
 
 class Acc:
